@@ -65,7 +65,7 @@ Proof.
   - inversion Hk. discriminate.
   - destruct (kmap C reg G L e1) as [k|]; [|discriminate].
     destruct (realness k); inversion Hk. discriminate.
-  - destruct (kcall reg f (map (kmap C reg G L) args) kwn) as [[|k [|k2 ks]]|]; inversion Hk. discriminate.
+  - destruct (kcall C reg f (map (kmap C reg G L) args) kwn) as [[|k [|k2 ks]]|]; inversion Hk. discriminate.
 Qed.
 
 Definition relB (T T' : skt) : Prop := all_some T -> all_some T'.
@@ -97,7 +97,7 @@ Proof.
       * apply H1.
       * destruct (alookup (sp T) ph); [apply H1 | apply nil_all_some].
     + destruct e; auto.
-  - destruct (kcall reg f (map (kmap C reg (sg T) (local_of T ph)) args) kwn) as [ks|e].
+  - destruct (kcall C reg f (map (kmap C reg (sg T) (local_of T ph)) args) kwn) as [ks|e].
     + match goal with |- context [raised C ?t] => destruct (raised C t); [exact I|] end.
       split; [|exact I]. apply (set_many_rel C relB Rr Rtr Rt).
     + destruct e; auto.
@@ -166,16 +166,16 @@ Qed.
 Definition wit_pow : program := [("ph", [SAssign "x" false (EPow (EVar "<t>") (EConst CInt)) []])].
 
 (* any configuration with the unchanged power rule in which "x" is not a global name *)
-Definition cfg_of (pw nm ia cr : bool) : cfg :=
-  mkCfg pw nm ia cr ["<t>"; "<dt>"] ["<state>"; "<p>"; "<ret_time_id>"; "<ret_time>"; "<ret_state>"].
+Definition cfg_of (pw nm ia cr fr na : bool) : cfg :=
+  mkCfg pw nm ia cr fr na ["<t>"; "<dt>"] ["<state>"; "<p>"; "<ret_time_id>"; "<ret_time>"; "<ret_state>"].
 
-Lemma every_assigned_refuted : forall nm ia cr,
-  exists T, infer (cfg_of false nm ia cr) builtin_reg (outer_fuel wit_pow) (inner_fuel wit_pow) wit_pow [] = Ok T /\
+Lemma every_assigned_refuted : forall nm ia cr fr na,
+  exists T, infer (cfg_of false nm ia cr fr na) builtin_reg (outer_fuel wit_pow) (inner_fuel wit_pow) wit_pow [] = Ok T /\
             wf_program wit_pow = true /\
             assigns (SAssign "x" false (EPow (EVar "<t>") (EConst CInt)) []) "x" /\
             lookup T "ph" "x" = Some None.
 Proof.
-  intros nm ia cr. destruct nm, ia, cr; eexists; (split; [vm_compute; reflexivity|]); repeat split; reflexivity.
+  intros nm ia cr fr na. destruct nm, ia, cr, fr, na; eexists; (split; [vm_compute; reflexivity|]); repeat split; reflexivity.
 Qed.
 
 (* ================================================================== with the repaired `set`: the final table is stable *)
@@ -195,7 +195,7 @@ Definition stable_item (C : cfg) (reg : registry) (T : skt) (it : item) : Prop :
       Forall (fun i => stable_entry C T (fst it) i (Some KInt)) loops /\
       exists k, kmap C reg (sg T) (local_of T (fst it)) rhs = Ok k /\ stable_entry C T (fst it) x k
   | SCall xs f args kwn =>
-      exists ks, kcall reg f (map (kmap C reg (sg T) (local_of T (fst it))) args) kwn = Ok ks /\
+      exists ks, kcall C reg f (map (kmap C reg (sg T) (local_of T (fst it))) args) kwn = Ok ks /\
                  zip_stable C T (fst it) xs ks
   | _ => True
   end.
@@ -338,7 +338,7 @@ Proof.
            rewrite <- Hg, <- (local_of_content T1 _ ph (conj Hg Hp)). exact Ek.
         -- eapply stable_entry_content; [exact Hs12|]. apply Hst. lia.
     + destruct e; auto.
-  - destruct (kcall reg f (map (kmap C reg (sg T) (local_of T ph)) args) kwn) as [ks|e] eqn:Ek.
+  - destruct (kcall C reg f (map (kmap C reg (sg T) (local_of T ph)) args) kwn) as [ks|e] eqn:Ek.
     + destruct (raised C (set_many C T ph xs ks)); [exact I|].
       split; [apply (set_many_rel C relC relC_refl relC_trans Rt)|].
       intros [Hc Hn]. unfold stable_item. simpl.
@@ -374,7 +374,7 @@ Proof.
   intros C reg fo fi D forced T Hnm H Hn it Hin. destruct (infer_inv _ _ _ _ _ _ _ H) as [_ [E _]]. clear H.
   destruct (outer_last _ _ _ _ _ _ _ E) as [T0 [Ei Hc]].
   apply (inner_gen C reg relC (fun _ => True) (postC C reg) relC_refl relC_trans) in Ei.
-  - destruct Ei as [_ HP]. apply HP; [|split; assumption].
+  - destruct Ei as [_ HP]. apply (HP Hc); [|split; assumption].
     rewrite app_nil_r. apply in_rev in Hin. exact Hin.
   - intros T2 ph s _. apply procC. exact Hnm.
   - apply postC_mono.
@@ -449,7 +449,7 @@ Proof.
       apply (stable_entry_le C); auto.
   - apply andb_prop in Hsides. destruct Hsides as [Hs1 Hco]. apply andb_prop in Hs1. destruct Hs1 as [Hag Hside].
     rewrite Hside, Hco, !andb_true_r. destruct Hst as [ks [Hk Hz]]. rewrite Hk in *.
-    destruct (kcall_inv _ _ _ _ _ Hk) as [s0 [Hf Hlen]].
+    destruct (kcall_inv _ _ _ _ _ _ Hk) as [s0 [Hf Hlen]].
     destruct (final_check_calls C reg T D Hfc ph stmts xs f args kwn HD Hs) as [s1 [Hf1 Hn1]].
     rewrite Hf in Hf1. inversion Hf1; subst s1.
     apply (zip_entries_le C); auto. congruence.
@@ -560,8 +560,8 @@ Proof.
   apply String.eqb_eq in E. subst x. inversion Hx; subst. exists (KScalar true). split; [exact Hl | reflexivity].
 Qed.
 
-Lemma soundness_full_refuted : forall pw nm ia cr,
-  let C := cfg_of pw nm ia cr in
+Lemma soundness_full_refuted : forall pw nm ia cr fr na,
+  let C := cfg_of pw nm ia cr fr na in
   exists T st,
     infer C builtin_reg (outer_fuel wit_mixed) (inner_fuel wit_mixed) wit_mixed [] = Ok T /\
     sconf T = 0 /\
@@ -569,9 +569,9 @@ Lemma soundness_full_refuted : forall pw nm ia cr,
     creach C builtin_reg wit_mixed keep_std "ph" [("<t>", CReal)] "ph" st /\
     ~ store_ok T "ph" st.
 Proof.
-  intros pw nm ia cr C.
+  intros pw nm ia cr fr na C.
   pose proof (fun T => store_ok_t T "ph") as H0.
-  destruct pw, nm, ia, cr;
+  destruct pw, nm, ia, cr, fr, na;
     (eexists; exists (cset [("<t>", CReal)] "x" CReal);
      split; [vm_compute; reflexivity|];
      split; [reflexivity|];
@@ -589,8 +589,8 @@ Definition wit_stale : program :=
   [("ph", [SCall ["a"] "<builtin>array" [EConst CInt] [];
            SAssign "x" false (ESum [EConst CInt; EVar "a"]) []])].
 
-Lemma soundness_refuted_stale : forall pw ia cr,
-  let C := cfg_of pw false ia cr in
+Lemma soundness_refuted_stale : forall pw ia cr fr na,
+  let C := cfg_of pw false ia cr fr na in
   exists T st,
     infer C builtin_reg (outer_fuel wit_stale) (inner_fuel wit_stale) wit_stale [] = Ok T /\
     sconf T = 0 /\ sides C builtin_reg wit_stale T = true /\
@@ -598,9 +598,9 @@ Lemma soundness_refuted_stale : forall pw ia cr,
     creach C builtin_reg wit_stale keep_std "ph" [("<t>", CReal)] "ph" st /\
     ~ store_ok T "ph" st.
 Proof.
-  intros pw ia cr C.
+  intros pw ia cr fr na C.
   pose proof (fun T => store_ok_t T "ph") as H0.
-  destruct pw, ia, cr;
+  destruct pw, ia, cr, fr, na;
     (eexists; exists (cset (cset [("<t>", CReal)] "a" (CArr true)) "x" (CArr true));
      split; [vm_compute; reflexivity|];
      split; [reflexivity|];
@@ -628,7 +628,7 @@ Definition ex_prog : program :=
    ("q", [SAssign "<p>s" false (EProd [EVar "<dt>"; EConst CComplex]) []])].
 
 Definition ex_reg : registry := builtin_reg ++ [("<func>f", FRhs "y" ["y"] ["y"])].
-Definition ex_cfg : cfg := cfg_of true true true true.
+Definition ex_cfg : cfg := cfg_of true true true true true true.
 
 (* the hypotheses of every_assigned and of soundness hold for a program with calls, loops, a power, an
    element store, two phases and persistent variables; the sum is an Array although it is visited first *)
@@ -669,6 +669,43 @@ Proof.
   repeat constructor; eexists; split; reflexivity.
 Qed.
 
+(* the two shapes of the finder's give-up rule (c2c8c5a).  Statements are popped from the end: abs(x) is
+   deferred, x <- i + w is entered as Integer while w is unknown, w arrives, the retry of abs(Integer) fails
+   again.  Old text: RuntimeError.  New text: the table changed, the next pass raises x to Scalar and y
+   is inferred.  (corpus/C09/restart_after_change.json runs the same program on the real code.) *)
+Definition ex_restart_prog : program :=
+  [("ph", [SAssign "w" false (EConst CReal) [];
+           SAssign "x" false (ESum [EVar "i"; EVar "w"]) ["i"];
+           SAssign "y" false (ECall "<builtin>elementwise_abs" [EVar "x"] []) []])].
+
+Example ex_restart : forall na,
+  infer (cfg_of true true true true false na) builtin_reg (outer_fuel ex_restart_prog) (inner_fuel ex_restart_prog)
+        ex_restart_prog [] = Err RuntimeError /\
+  exists T, infer (cfg_of true true true true true na) builtin_reg (outer_fuel ex_restart_prog)
+                  (inner_fuel ex_restart_prog) ex_restart_prog [] = Ok T /\
+            lookup T "ph" "x" = Some (Some (KScalar true)) /\ lookup T "ph" "y" = Some (Some (KScalar true)) /\
+            strict (cfg_of true true true true true na) builtin_reg ex_restart_prog T = true.
+Proof.
+  intros na. destruct na; (split; [vm_compute; reflexivity|]); eexists; (split; [vm_compute; reflexivity|]);
+    repeat split; vm_compute; reflexivity.
+Qed.
+
+(* the two shapes of the matrix built-ins (47d5901): x <- matmul(<t>, <t>, 2, 2).  Old text: a Scalar has
+   `.is_real_valued`, x is an Array.  New text: never inferable, the run gives up.
+   (corpus/C09/matmul_of_scalars.json) *)
+Definition ex_matscalar_prog : program :=
+  [("ph", [SAssign "x" false (ECall "<builtin>matmul" [EVar "<t>"; EVar "<t>"; EConst CInt; EConst CInt] []) []])].
+
+Example ex_matscalar : forall fr,
+  (exists T, infer (cfg_of true true true true fr false) builtin_reg (outer_fuel ex_matscalar_prog)
+                   (inner_fuel ex_matscalar_prog) ex_matscalar_prog [] = Ok T /\
+             lookup T "ph" "x" = Some (Some (KArray true))) /\
+  infer (cfg_of true true true true fr true) builtin_reg (outer_fuel ex_matscalar_prog)
+        (inner_fuel ex_matscalar_prog) ex_matscalar_prog [] = Err RuntimeError.
+Proof.
+  intros fr. destruct fr; (split; [eexists; split; vm_compute; reflexivity | vm_compute; reflexivity]).
+Qed.
+
 (* the second part of C09 without side conditions, as a statement about one configuration *)
 Definition full_soundness (C : cfg) (keep : string -> bool) : Prop :=
   forall reg fo fi D forced T,
@@ -676,9 +713,9 @@ Definition full_soundness (C : cfg) (keep : string -> bool) : Prop :=
     forall ph0 st0 ph st,
       store_ok T ph0 st0 -> creach C reg D keep ph0 st0 ph st -> store_ok T ph st.
 
-Lemma full_soundness_false : forall pw nm ia cr, ~ full_soundness (cfg_of pw nm ia cr) keep_std.
+Lemma full_soundness_false : forall pw nm ia cr fr na, ~ full_soundness (cfg_of pw nm ia cr fr na) keep_std.
 Proof.
-  intros pw nm ia cr H. destruct (soundness_full_refuted pw nm ia cr) as [T [st [Hi [_ [H0 [Hr Hbad]]]]]].
+  intros pw nm ia cr fr na H. destruct (soundness_full_refuted pw nm ia cr fr na) as [T [st [Hi [_ [H0 [Hr Hbad]]]]]].
   apply Hbad. eapply H; eauto.
 Qed.
 
@@ -706,7 +743,7 @@ Proof.
     + match goal with |- context [raised C ?t] => destruct (raised C t); [exact I|] end.
       split; [|exact I]. eapply Rtr; [exact HL|]. intro. apply tset_exn_conf. assumption.
     + destruct e; auto.
-  - destruct (kcall reg f (map (kmap C reg (sg T) (local_of T ph)) args) kwn) as [ks|e].
+  - destruct (kcall C reg f (map (kmap C reg (sg T) (local_of T ph)) args) kwn) as [ks|e].
     + match goal with |- context [raised C ?t] => destruct (raised C t); [exact I|] end.
       split; [|exact I]. apply (set_many_rel C relI Rr Rtr Rt).
     + destruct e; auto.
@@ -727,7 +764,7 @@ Proof.
     match goal with |- context [kmap C reg ?g ?l rhs] => destruct (kmap C reg g l rhs) as [k|e] end.
     + match goal with |- context [raised C ?t] => destruct (raised C t) eqn:E2; [exact I|] end. split; auto.
     + destruct e; auto.
-  - destruct (kcall reg f (map (kmap C reg (sg T) (local_of T ph)) args) kwn) as [ks|e].
+  - destruct (kcall C reg f (map (kmap C reg (sg T) (local_of T ph)) args) kwn) as [ks|e].
     + match goal with |- context [raised C ?t] => destruct (raised C t) eqn:E2; [exact I|] end. split; auto.
     + destruct e; auto.
   - split; auto.
